@@ -272,6 +272,24 @@ def align_cases(rng, quick):
         once = seq.count(orf) == 1
         yield Case("phasent1", [2, go, ge, mt, mm, reverse, rng.choice([0, 1]), rng.choice([0, 1, 2]), refs, seq],
                    once and bool(left), "phasent1")
+    for _ in range(40 if quick else 400):
+        # two references: the sequence begins inside a copy of the first one (its first k nucleotides are missing, so the
+        # best alignment with it opens with k gaps) and holds the longer second one verbatim; or one reference whose
+        # verbatim occurrence is on the reverse strand while the forward strand gives some weaker hit
+        r1 = make_orf(rng, rng.randint(6, 10))
+        r2 = make_orf(rng, rng.randint(12, 18))
+        k = rng.choice([1, 2, 4, 5, 7])
+        seq = r1[k:] + rnd(rng, rng.randint(0, 6)) + r2 + rnd(rng, rng.randint(0, 9))
+        reverse = rng.choice([0, 1])
+        if reverse and rng.random() < 0.5:
+            seq = revcomp(seq)
+        once = seq.count(r2) + revcomp(seq).count(r2) == 1
+        yield Case("phasent1", [2, "d", "d", "_", "_", reverse, rng.choice([0, 1]), rng.choice([0, 1, 2]),
+                                "ref:" + r1 + ",ref2:" + r2, seq], once, "phasent1-two-refs-truncated-first")
+        orf = make_orf(rng, rng.randint(4, 12))
+        seq = revcomp(rnd(rng, rng.randint(0, 12)) + orf + rnd(rng, rng.randint(0, 12)))
+        yield Case("phasent1", [2, "d", "d", "_", "_", 1, rng.choice([0, 1]), rng.choice([0, 1, 2]), "ref:" + orf, seq],
+                   True, "phasent1-reverse-strand-verbatim")
     for _ in range(200 if quick else 2000):
         # unrelated / tiny sequences, small gap penalties: no positive alignment, hits of one or two residues
         # behind leading gaps, empty codon sequences
